@@ -201,7 +201,7 @@ class FileResponseMixin:
         if any(not (0 <= start < max_size) for start, _ in ranges):
             raise RangeNotSatisfiable(max_size)
 
-        if any(start > end for start, end in ranges):
+        if any(start >= end for start, end in ranges):
             raise MalformedRangeHeader("Range header: start must be less than end")
 
         if len(ranges) == 1:
